@@ -1,29 +1,24 @@
 /-
-`oracle`: the line-protocol driver.  One operation per input line (`<module>.<op> args…`), one
+`oracle`: the line-protocol driver.  One operation per input line (`<area>.<op> args…`), one
 answer line per operation.  Core-only so that it links as a `lean_exe`.
 -/
-import OnosVerif.Path.Wire
+import Driver.Handlers
 
-open OnosVerif
-
-def dispatch (line : String) : String :=
+def dispatch (line : String) : IO String := do
   let toks := (line.trimAscii.toString.splitOn " ").filter (· ≠ "")
   match toks with
-  | [] => "bad-op"
+  | [] => pure "bad-op"
   | cmd :: args =>
     match cmd.splitOn "." with
-    | [modName, op] =>
-      let r : Option String :=
-        match modName with
-        | "path" => Path.handle op args
-        | _ => none
-      r.getD "bad-op"
-    | _ => "bad-op"
+    | [modName, op] => do
+      let r ← Driver.dispatchIO modName op args
+      pure (r.getD "bad-op")
+    | _ => pure "bad-op"
 
 partial def loop (hin : IO.FS.Stream) (hout : IO.FS.Stream) : IO Unit := do
   let line ← hin.getLine
   if line.isEmpty then return ()
-  hout.putStrLn (dispatch line)
+  hout.putStrLn (← dispatch line)
   hout.flush
   loop hin hout
 
